@@ -46,6 +46,9 @@ from common import hx, WORK
 from props import c30 as H
 
 
+CORPUS_ONLY = bool(os.environ.get("VERIF_CORPUS_ONLY"))      # run only the fixed corpus (skip the random families)
+
+
 def rbytes(rng, n):
     return bytes(rng.randrange(256) for _ in range(n))
 
@@ -377,6 +380,26 @@ CORPUS.append(
      ["m", "SI1", 1, 1, 2], ["r", "SI0", 0, 0, 2]])
 
 
+# the three seeded changes, one minimal history each
+# C31-a: the test vector's `size` (not the specimen's length) decides how much is compared: "no share here yet"
+#        (offset 0, size 1, specimen b"") must fail on a share that holds data, on both paths
+CORPUS.append(
+    [["q", "SI1", "WE", "L0", "L1", {"tw": [[0, [], [[0, "616263"]], None]], "rv": []}],
+     ["q", "SI1", "WE", "L0", "L1", {"tw": [[0, [[0, 1, ""]], [[0, "5a5a5a5a5a"]], None]], "rv": [[0, 10]]}],
+     ["q", "SI1", "WE", "L0", "L1", {"tw": [[0, [[0, 5, "616263"]], [[0, "51"]], None]], "rv": []}],
+     ["m", "SI1", 0, 0, 10]])
+# C31-b: an empty write beyond the end of the data extends the share with zeros, on both paths
+CORPUS.append(
+    [["q", "SI1", "WE", "L0", "L1", {"tw": [[0, [], [[0, "6162"]], None]], "rv": []}],
+     ["q", "SI1", "WE", "L0", "L1", {"tw": [[0, [], [[7, ""]], None]], "rv": [[0, 20]]}],
+     ["m", "SI1", 0, 0, 20], ["q", "SI1", "WE", "L0", "L1", {"tw": [], "rv": [[0, 20]]}]])
+# C31-c: allocating again on a storage index that already holds a finished share adds / renews the caller's lease on
+#        it, on both paths (the share files are compared byte for byte at the end of the history)
+CORPUS.append(
+    [["c", "SI0", [0], 2, "aa", "L0", "L1"], ["w", "SI0", 0, "aa", 0, "0102"], ["c", "SI0", [0, 1], 2, "aa", "L2", "L1"],
+     ["r", "SI0", 0, 0, 2], ["e", "SI0", "L0", "L2"]])
+
+
 def instantiate(corpus_hist, rng):
     from allmydata.storage.common import si_b2a
     names = {"SI0": si_b2a(rbytes(rng, 16)).decode(), "SI1": si_b2a(rbytes(rng, 16)).decode(),
@@ -476,9 +499,12 @@ def run(ctx):
         c = ctx.replay["case"]
         hists = [c["ops"]]
     else:
+        import random
+        fixed = random.Random("C31-fixed-corpus")            # the corpus does not depend on VERIF_SEED
         for ch in CORPUS:
-            hists.append(instantiate(ch, ctx.rng))
-        for i in range(ctx.budget(220, 4000)):
+            hists.append(instantiate(ch, fixed))
+        ctx.count("corpus-histories", len(CORPUS))
+        for i in range(0 if CORPUS_ONLY else ctx.budget(220, 4000)):
             # zero-length reads / empty chunks are a known divergence: give them their own share of histories
             hists.append(gen_history(ctx.rng, ctx.rng.choice([10, 25, 45]), zero_ok=(i % 5 == 0)))
     impls, lines, cases, dimpls = [], [], [], []
@@ -504,7 +530,7 @@ def run(ctx):
                     cases, dimpls, mapped)
     # function level: the read path on one share, all offsets/lengths around the end
     rl, ri, rc = [], [], []
-    if not ctx.replay:
+    if not ctx.replay and not CORPUS_ONLY:
         rl, ri, rc = read_grid(ctx)
         model = ctx.model(rl)
         ctx.compare("read_share_chunk on a finished share (offset x length grid) vs httpRead", rc, ri, model)
